@@ -7,21 +7,48 @@
      (`downmix_continuousOn`);
    * agreement on shared edges: on the open arc between two loudspeakers the pair of gains is uniquely determined
      (`edge_unique`, `edge_exists`), a triplet having the two loudspeakers as vertices returns exactly that pair and 0
-     for its third loudspeaker (`triplet_on_edge`), hence two triplets sharing an edge agree on it (`edge_agreement`).
+     for its third loudspeaker (`triplet_on_edge`), hence two triplets sharing an edge agree on it (`edge_agreement`);
+   * THE TOPOLOGICAL HALF (pasting; proofs in Proofs/C12Paste.lean):
+     - `firstAccept_eq_of_agree`, `firstAccept_continuousOn`: finitely many regions whose acceptance sets are closed
+       in `S`, handlers continuous on them, pairwise agreement on the overlaps ⟹ the first-accept function (the loop
+       of `PointSourcePanner.handle`, `firstAccept` in the model) is continuous on the union and equals ANY accepting
+       region's value; `panner_continuousOn_of_regions` is the same statement on the model's
+       `PointSourcePanner.handle` itself (any region types, the code's thresholds, hypotheses per region);
+     - closedness: `triplet_accept_isClosed` (every threshold, every matrix), `triplet_accept_isClosed_code`,
+       `ngon_accept_isClosed`; for the quad only `quad_accept_isOpen_of_roots` (given the roots the test on the
+       direction is a strict inequality; closedness depends on np.roots' root selection — not proved);
+     - `panner_continuousOn_triplets_partial`: an all-triplet panner in the IDEALISATION "acceptance slack 0"
+       (`tripletPannerE 0`; `tripletPannerE_eps`: with the code's −1e-11 it is `PointSourcePanner.handle`) is
+       continuous on the union of its cones, the agreement hypothesis being discharged (`shared_face_agreement`, from
+       `triplet_on_edge`) under the explicit combinatorial hypothesis `MeetInSharedFace` on every pair of regions
+       (checked on the real configured panners, exact rational arithmetic, by harness/c12.py);
+     - the quantitative statement the real code satisfies: `triplet_sliver_bound` (and `_general`): on the sliver
+       where two neighbouring triplets both accept (slack 1e-11) their answers differ by at most `C·1e-11`,
+       `C = 15/2 · max(|α|, |β|, γ+1) · max(1, 1/γ)` for `w' = α u + β v − γ w`;
+     - quantitative pasting: `firstAccept_jump_bound`, `panner_jump_bound_of_regions` (handlers agreeing only up to `η`
+       on the overlaps ⟹ the first-accept function / the model's panner varies by at most `η + δ` near every point:
+       jumps bounded by `η`), and END TO END for the code's threshold `two_triplet_panner_jump_bound`: the model's
+       `PointSourcePanner.handle` on two edge-sharing triplets is continuous up to jumps of `C·1e-11` on every channel.
 
-   PARTIAL: `C12_partial` is the conjunction.  Global continuity of the composed panner additionally needs (a) the
-   regions to cover the sphere (Qhull's facets: extracted, not re-derived), (b) a treatment of the −1e-11 acceptance
-   slack, under which two overlapping regions may differ by O(1e-11) — in exact arithmetic the composed function has
-   jumps of that order, so the full statement is only true "up to 1e-10" — and (c) the n-gon / quad versions of edge
-   agreement (the quad depends on the root selection of np.roots, a parameter of the model).  These are searched
-   by harness/c12.py (bisection to 1e-9 rad on the real panner), not proved. -/
+   PARTIAL: `C12_partial` is the conjunction.  Still NOT proved: (a) that the regions cover the sphere (Qhull's facets:
+   extracted, not re-derived); (b) the GLOBAL "continuous up to jumps of C·1e-11" statement for a whole layout's
+   panner with the code's slack: `panner_jump_bound_of_regions` reduces it to pairwise `η`-agreement on the overlaps,
+   which is proved (`triplet_sliver_bound`) only for edge-sharing triplets in the arrangement (u, v, w)/(u, v, w') (row
+   permutations, and the slivers around a vertex shared by non-adjacent triplets, are not formalised); (c) quads and n-gons inside the pasted
+   panner: closedness of the quad's acceptance set and the quad/n-gon agreement without their extra hypotheses (root
+   selection of np.roots, order of the inner triplets), continuity of the n-gon handler.  These are searched by
+   harness/c12.py (bisection to 1e-9 rad on the real panner), not proved. -/
 import Earverif.Props.C05
+import Earverif.Proofs.C12Paste
 import Mathlib.Analysis.SpecialFunctions.Pow.Continuity
 import Mathlib.Topology.Algebra.Order.Field
 import Mathlib.Tactic.FinCases
 import Mathlib.Tactic.FunProp
+import Mathlib.Tactic.IntervalCases
 
 namespace Earverif.PointSource
+
+open Set Filter
 
 /-! ### uniqueness of the gains on an edge -/
 
@@ -654,6 +681,662 @@ theorem downmix_continuousOn {m : Nat} (D : List (List ℝ)) (i : Nat) :
   have h0 := sumsq_nonneg (matVec D (List.ofFn v))
   exact (Real.sqrt_pos.mpr (lt_of_le_of_ne h0 (Ne.symm hv))).ne'
 
+/-! ### closedness of the acceptance sets -/
+
+/-- The acceptance set of a triplet, `{p | ε ≤ every component of p·P⁻¹}`, is closed — for every threshold `ε` (the
+    code's −1e-11, the idealised 0) and every matrix (for a singular `P` the model's `inv3` divides by 0 = 0 over ℝ and
+    `pv` is still linear).  A fortiori it is closed in the set of directions ≠ 0. -/
+theorem triplet_accept_isClosed (ε : ℝ) (P : Mat3 ℝ) : IsClosed {p : Vec3 ℝ | Triplet.acceptsE ε P p} := by
+  have hc := continuous_pv P
+  have h1 : IsClosed {p : Vec3 ℝ | ε ≤ (Triplet.pv P p).1} := isClosed_le continuous_const (continuous_fst.comp hc)
+  have h2 : IsClosed {p : Vec3 ℝ | ε ≤ (Triplet.pv P p).2.1} :=
+    isClosed_le continuous_const ((continuous_fst.comp continuous_snd).comp hc)
+  have h3 : IsClosed {p : Vec3 ℝ | ε ≤ (Triplet.pv P p).2.2} :=
+    isClosed_le continuous_const ((continuous_snd.comp continuous_snd).comp hc)
+  exact h1.inter (h2.inter h3)
+
+/-- ... in particular the set of directions for which the model's `Triplet.handle` returns a result -/
+theorem triplet_accept_isClosed_code (P : Mat3 ℝ) : IsClosed {p : Vec3 ℝ | Triplet.handle P p ≠ none} := by
+  have : {p : Vec3 ℝ | Triplet.handle P p ≠ none} = {p | Triplet.acceptsE tripletEps P p} := by
+    ext p
+    simp only [mem_ofPred_eq, Triplet.handle, acceptsE_eps]
+    by_cases h : Triplet.accepts P p <;> simp [h]
+  rw [this]; exact triplet_accept_isClosed _ P
+
+theorem isClosed_exists_mem {ι : Type} (A : ι → Set (Vec3 ℝ)) : ∀ l : List ι, (∀ r ∈ l, IsClosed (A r)) →
+    IsClosed {p | ∃ r ∈ l, p ∈ A r}
+  | [], _ => by simp
+  | a :: rest, h => by
+    have : {p | ∃ r ∈ a :: rest, p ∈ A r} = A a ∪ {p | ∃ r ∈ rest, p ∈ A r} := by
+      ext p; simp
+    rw [this]
+    exact (h a (by simp)).union (isClosed_exists_mem A rest (fun r hr => h r (List.mem_cons_of_mem _ hr)))
+
+/-- the acceptance set of a virtual n-gon (union of its inner triplets' acceptance sets) is closed -/
+theorem ngon_accept_isClosed (g : VirtualNgon ℝ) : IsClosed {p : Vec3 ℝ | g.handle p ≠ none} := by
+  have : {p : Vec3 ℝ | g.handle p ≠ none} = {p | ∃ r ∈ g.regions, p ∈ {p | Triplet.acceptsE tripletEps r.2 p}} := by
+    ext p
+    simp only [mem_ofPred_eq, ne_eq, ngon_handle_eq, firstAccept_eq_none, not_forall, List.mem_map]
+    constructor
+    · rintro ⟨x, ⟨r, hr, rfl⟩, hx⟩
+      refine ⟨r, hr, ?_⟩
+      by_contra hacc
+      apply hx
+      have : Triplet.handle r.2 p = none := by
+        rw [← handleE_eps]; simp [Triplet.handleE, hacc]
+      simp [VirtualNgon.candidate, this, remap]
+    · rintro ⟨r, hr, hacc⟩
+      refine ⟨_, ⟨r, hr, rfl⟩, ?_⟩
+      have : Triplet.handle r.2 p = some (Triplet.gains r.2 p) := by
+        rw [← handleE_eps]; simp [Triplet.handleE, hacc]
+      simp [VirtualNgon.candidate, this, remap]
+  rw [this]
+  exact isClosed_exists_mem _ _ (fun r _ => triplet_accept_isClosed _ r.2)
+
+
+/-! ### an all-triplet panner at acceptance slack 0 -/
+
+/-- output channel of row `a` of a triplet -/
+def chanAt (ch : List Nat) (a : Fin 3) : Nat := ch.getD a.1 0
+
+/-- a three-channel remap of gains supported on rows `i`, `j`, read at channel `c` -/
+theorem remap3_supported (n c c0 c1 c2 : Nat) (h01 : c0 ≠ c1) (h02 : c0 ≠ c2) (h12 : c1 ≠ c2) (g : Vec3 ℝ)
+    (i j : Fin 3) (hij : i ≠ j) (hk : ∀ k, k ≠ i → k ≠ j → coord g k = 0) :
+    (scatter (zeros n) [c0, c1, c2] (vecList g)).getD c 0 =
+      (if c = chanAt [c0, c1, c2] i ∧ c < n then coord g i else 0) +
+        (if c = chanAt [c0, c1, c2] j ∧ c < n then coord g j else 0) := by
+  obtain ⟨g0, g1, g2⟩ := g
+  simp only [vecList]
+  rw [scatter3_getD]
+  fin_cases i <;> fin_cases j <;> simp only [ne_eq, not_true_eq_false, Fin.zero_eta, Fin.mk_one, Fin.reduceFinMk] at hij
+  all_goals simp only [chanAt, coord, List.getD_cons_zero, List.getD_cons_succ]
+  · have h2 := hk 2 (by decide) (by decide); simp only [coord] at h2; subst h2
+    split_ifs <;> first | rfl | (simp; done) | omega
+  · have h2 := hk 1 (by decide) (by decide); simp only [coord] at h2; subst h2
+    split_ifs <;> first | rfl | (simp; done) | omega
+  · have h2 := hk 2 (by decide) (by decide); simp only [coord] at h2; subst h2
+    split_ifs <;> first | rfl | (simp; done) | omega
+  · have h2 := hk 0 (by decide) (by decide); simp only [coord] at h2; subst h2
+    split_ifs <;> first | rfl | (simp; done) | omega
+  · have h2 := hk 1 (by decide) (by decide); simp only [coord] at h2; subst h2
+    split_ifs <;> first | rfl | (simp; done) | omega
+  · have h2 := hk 0 (by decide) (by decide); simp only [coord] at h2; subst h2
+    split_ifs <;> first | rfl | (simp; done) | omega
+
+/-- a region of an all-triplet panner: (output channels, positions) -/
+abbrev TRegion := List Nat × Mat3 ℝ
+
+/-- three distinct output channels -/
+def TRegion.chOk (r : TRegion) : Prop := ∃ c0 c1 c2, r.1 = [c0, c1, c2] ∧ c0 ≠ c1 ∧ c0 ≠ c2 ∧ c1 ≠ c2
+
+/-- THE COMBINATORIAL HYPOTHESIS on a pair of triplets: their exact (slack 0) acceptance cones meet only in a shared
+    face.  Every common direction `p ≠ 0` lies on the arc `s·a + t·b` (`s, t ≥ 0`) between two loudspeakers `a`, `b`
+    of the first triplet such that `a` is also a loudspeaker of the second triplet, on the same output channel, and
+    either `t = 0` (the direction IS the shared loudspeaker `a`: shared vertex) or the same holds for `b` (shared
+    edge). -/
+def MeetInSharedFace (r r' : TRegion) : Prop :=
+  ∀ p : Vec3 ℝ, p ≠ (0, 0, 0) → Triplet.acceptsE 0 r.2 p → Triplet.acceptsE 0 r'.2 p →
+    ∃ (i j i' j' : Fin 3) (s t : ℝ), i ≠ j ∧ i' ≠ j' ∧ 0 ≤ s ∧ 0 ≤ t ∧
+      p = edgePoint s t (row r.2 i) (row r.2 j) ∧
+      row r.2 i = row r'.2 i' ∧ chanAt r.1 i = chanAt r'.1 i' ∧
+      (t = 0 ∨ (row r.2 j = row r'.2 j' ∧ chanAt r.1 j = chanAt r'.1 j'))
+
+theorem edgePoint_zero_right (s : ℝ) (a b b' : Vec3 ℝ) : edgePoint s 0 a b = edgePoint s 0 a b' := by
+  simp [edgePoint, add3, smul3]
+
+theorem handle_some_eq_gains {P : Mat3 ℝ} {p g : Vec3 ℝ} (h : Triplet.handle P p = some g) : g = Triplet.gains P p := by
+  unfold Triplet.handle at h
+  split at h
+  · exact (Option.some.inj h).symm
+  · simp at h
+
+/-- the remapped output of one triplet, read at channel `c` -/
+noncomputable def tripletOut (n : Nat) (r : TRegion) (p : Vec3 ℝ) : List ℝ :=
+  scatter (zeros n) r.1 (vecList (Triplet.gains r.2 p))
+
+/-- AGREEMENT, discharged from the combinatorial hypothesis by `triplet_on_edge`: two invertible triplets whose exact
+    cones meet only in a shared face give every output channel the same gain at every common direction. -/
+theorem shared_face_agreement (r r' : TRegion) (hd : det3 r.2 ≠ 0) (hd' : det3 r'.2 ≠ 0) (hch : r.chOk)
+    (hch' : r'.chOk) (h : MeetInSharedFace r r') (n c : Nat) (p : Vec3 ℝ) (hp : p ≠ (0, 0, 0))
+    (ha : Triplet.acceptsE 0 r.2 p) (ha' : Triplet.acceptsE 0 r'.2 p) :
+    (tripletOut n r p).getD c 0 = (tripletOut n r' p).getD c 0 := by
+  obtain ⟨i, j, i', j', s, t, hij, hij', hs, ht, hpe, hri, hci, hj⟩ := h p hp ha ha'
+  have hne : s * s + t * t ≠ 0 := by
+    intro h0
+    have hs0 : s = 0 := by nlinarith [mul_self_nonneg s, mul_self_nonneg t]
+    have ht0 : t = 0 := by nlinarith [mul_self_nonneg s, mul_self_nonneg t]
+    apply hp; rw [hpe, hs0, ht0]; simp [edgePoint, add3, smul3]
+  obtain ⟨g, hg, gi, gj, gk⟩ := triplet_on_edge r.2 hd i j hij s t hs ht hne
+  have hpe' : p = edgePoint s t (row r'.2 i') (row r'.2 j') := by
+    rcases hj with rfl | ⟨hrj, _⟩
+    · rw [hpe, hri]; exact edgePoint_zero_right _ _ _ _
+    · rw [hpe, hri, hrj]
+  obtain ⟨g', hg', gi', gj', gk'⟩ := triplet_on_edge r'.2 hd' i' j' hij' s t hs ht hne
+  rw [← hpe] at hg
+  rw [← hpe'] at hg'
+  obtain ⟨c0, c1, c2, hc, h01, h02, h12⟩ := hch
+  obtain ⟨d0, d1, d2, hc', k01, k02, k12⟩ := hch'
+  unfold tripletOut
+  rw [← handle_some_eq_gains hg, ← handle_some_eq_gains hg', hc, hc',
+    remap3_supported n c c0 c1 c2 h01 h02 h12 g i j hij gk, remap3_supported n c d0 d1 d2 k01 k02 k12 g' i' j' hij' gk',
+    gi, gj, gi', gj', ← hc, ← hc', hci]
+  congr 1
+  rcases hj with rfl | ⟨_, hcj⟩
+  · simp
+  · rw [hcj]
+
+theorem tripletOut_length (n : Nat) (r : TRegion) (p : Vec3 ℝ) : (tripletOut n r p).length = n := by
+  simp [tripletOut, scatter_length, zeros]
+
+/-- the acceptance set of a triplet region at slack 0, without the origin -/
+def TRegion.cone (r : TRegion) : Set (Vec3 ℝ) := {p | Triplet.acceptsE 0 r.2 p} ∩ {p | p ≠ (0, 0, 0)}
+
+/-- every output channel of an invertible triplet is continuous in the direction away from the origin -/
+theorem tripletOut_continuousOn_ne (n c : Nat) (r : TRegion) (hd : det3 r.2 ≠ 0) :
+    ContinuousOn (fun p => (tripletOut n r p).getD c 0) {p | p ≠ (0, 0, 0)} := by
+  have h1 : ContinuousOn (fun p : Vec3 ℝ => Triplet.gains r.2 p) {p | p ≠ (0, 0, 0)} :=
+    (triplet_continuousOn r.2).mono (fun p hp => pv_ne_zero r.2 hd p hp)
+  exact (continuous_remap3 r.1 n c).comp_continuousOn h1
+
+theorem tripletOut_continuousOn (n c : Nat) (r : TRegion) (hd : det3 r.2 ≠ 0) :
+    ContinuousOn (fun p => (tripletOut n r p).getD c 0) r.cone :=
+  (tripletOut_continuousOn_ne n c r hd).mono (fun _ hp => hp.2)
+
+/-- IDEALISED (acceptance slack 0 instead of the code's −1e-11) and for triplet regions only.
+    A panner whose regions are invertible triplets with three distinct output channels each, any two of which meet
+    only in a shared face: every output channel's gain is a continuous function of the direction on the union of the
+    cones (origin removed), and there the panner's answer is the answer of ANY triplet containing the direction.
+    Missing for the property: (1) the code's slack −1e-11 makes neighbouring acceptance sets overlap in slivers on
+    which the answers differ by O(1e-11) (`triplet_sliver_bound`), so the code's function is continuous only up to
+    jumps of that size; (2) quad and n-gon regions; (3) that the cones cover the sphere (C05). -/
+theorem panner_continuousOn_triplets_partial (regions : List TRegion) (n : Nat)
+    (hdet : ∀ r ∈ regions, det3 r.2 ≠ 0) (hch : ∀ r ∈ regions, r.chOk)
+    (hface : ∀ r ∈ regions, ∀ r' ∈ regions, r ≠ r' → MeetInSharedFace r r') :
+    (∀ c, ContinuousOn (fun p => ((tripletPannerE 0 regions n p).map (·.getD c 0)).getD 0)
+      {p | ∃ r ∈ regions, p ∈ r.cone}) ∧
+    (∀ r ∈ regions, ∀ p ∈ r.cone, tripletPannerE 0 regions n p = some (tripletOut n r p)) ∧
+    (∀ p, p ≠ (0, 0, 0) → (¬ ∃ r ∈ regions, p ∈ r.cone) → tripletPannerE 0 regions n p = none) := by
+  -- the candidate list of the panner at p ≠ 0, per output coordinate, is the abstract candidate list
+  have hagree : ∀ r ∈ regions, ∀ r' ∈ regions, ∀ p, p ∈ r.cone → p ∈ r'.cone → ∀ c,
+      (tripletOut n r p).getD c 0 = (tripletOut n r' p).getD c 0 := by
+    intro r hr r' hr' p hp hp' c
+    by_cases e : r = r'
+    · rw [e]
+    · exact shared_face_agreement r r' (hdet r hr) (hdet r' hr') (hch r hr) (hch r' hr') (hface r hr r' hr' e) n c p
+        hp.2 hp.1 hp'.1
+  have hcand : ∀ p, p ≠ (0, 0, 0) → ∀ (f : List ℝ → ℝ) (l : List TRegion),
+      (l.map fun r => remap r.1 n ((Triplet.handleE 0 r.2 p).map vecList)).map (Option.map f) =
+        candidates (l.map fun r => (r.cone, fun q => f (tripletOut n r q))) p := by
+    intro p hp f l
+    simp only [candidates, List.map_map]
+    apply List.map_congr_left
+    intro r _
+    by_cases hacc : Triplet.acceptsE 0 r.2 p
+    · have : p ∈ r.cone := ⟨hacc, hp⟩
+      simp [Triplet.handleE, hacc, remap, this, tripletOut]
+    · have : p ∉ r.cone := fun h => hacc h.1
+      simp [Triplet.handleE, hacc, remap, this]
+  have hU : ∀ f : List ℝ → ℝ, accUnion (regions.map fun r => (r.cone, fun q => f (tripletOut n r q))) =
+      {p | ∃ r ∈ regions, p ∈ r.cone} := by
+    intro f; ext p; simp [accUnion]
+  refine ⟨fun c => ?_, ?_, ?_⟩
+  · set rs : List (Set (Vec3 ℝ) × (Vec3 ℝ → ℝ)) := regions.map fun r => (r.cone, fun q => (tripletOut n r q).getD c 0)
+      with hrs
+    have main := firstAccept_continuousOn_aux {p : Vec3 ℝ | p ≠ (0, 0, 0)} rs 0
+      (by
+        intro x hx
+        obtain ⟨r, _, rfl⟩ := List.mem_map.mp hx
+        exact ⟨_, triplet_accept_isClosed 0 r.2, rfl⟩)
+      (by
+        intro x hx
+        obtain ⟨r, hr, rfl⟩ := List.mem_map.mp hx
+        exact tripletOut_continuousOn n c r (hdet r hr))
+      (by
+        intro x hx x' hx' p hp hp'
+        obtain ⟨r, hr, rfl⟩ := List.mem_map.mp hx
+        obtain ⟨r', hr', rfl⟩ := List.mem_map.mp hx'
+        exact hagree r hr r' hr' p hp hp' c)
+    rw [hrs, hU (fun l => l.getD c 0)] at main
+    refine main.1.congr ?_
+    intro p hp
+    obtain ⟨r, _, hpr⟩ := hp
+    simp only [tripletPannerE, firstAccept_map, hcand p hpr.2 (fun l => l.getD c 0) regions]
+  · intro r hr p hp
+    have hsome : ∀ c, (tripletPannerE 0 regions n p).map (·.getD c 0) = some ((tripletOut n r p).getD c 0) := by
+      intro c
+      simp only [tripletPannerE, firstAccept_map, hcand p hp.2 (fun l => l.getD c 0) regions]
+      exact firstAccept_eq_of_agree _ p _ ⟨_, List.mem_map.mpr ⟨r, hr, rfl⟩, hp⟩ (by
+        intro x hx hpx
+        obtain ⟨r', hr', rfl⟩ := List.mem_map.mp hx
+        exact hagree r' hr' r hr p hpx hp c)
+    cases hres : tripletPannerE 0 regions n p with
+    | none => have := hsome 0; rw [hres] at this; simp at this
+    | some out =>
+      congr 1
+      have hmem := firstAccept_mem hres
+      obtain ⟨r', hr', he⟩ := List.mem_map.mp hmem
+      have hlen : out.length = n := by
+        cases hh : Triplet.handleE 0 r'.2 p with
+        | none => rw [hh] at he; simp [remap] at he
+        | some g =>
+          rw [hh] at he
+          simp only [remap, Option.map_some, Option.some.injEq] at he
+          rw [← he]; simp [scatter_length, zeros]
+      apply list_ext_getD (by rw [hlen, tripletOut_length])
+      intro c
+      have := hsome c
+      rw [hres] at this
+      simpa using this
+  · intro p hp hnone
+    unfold tripletPannerE
+    rw [firstAccept_eq_none]
+    intro x hx
+    obtain ⟨r, hr, rfl⟩ := List.mem_map.mp hx
+    have : ¬ Triplet.acceptsE 0 r.2 p := fun h => hnone ⟨r, hr, h, hp⟩
+    simp [Triplet.handleE, this, remap]
+
+
+/-! ### the pasting theorem (headline; proof in Proofs/C12Paste.lean) -/
+
+/-- PASTING along `PointSourcePanner.handle`'s loop (`firstAccept`).  Finitely many regions `(A_i, g_i)`; every
+    acceptance set `A_i` is closed in `S` (`A_i = C_i ∩ S`, `C_i` closed; for the panner `S` = directions ≠ 0);
+    `g_i` is continuous on `A_i`; `g_i = g_j` on `A_i ∩ A_j`.  Then "the value of the first region whose acceptance
+    set contains `p`" is continuous on `⋃ A_i`; on each `A_i` it is `g_i` (with pairwise agreement the first accepting
+    region's value is ANY accepting region's value), and outside `⋃ A_i` the loop returns `None`. -/
+theorem firstAccept_continuousOn {X Y : Type} [TopologicalSpace X] [TopologicalSpace Y] (S : Set X)
+    (rs : List (Set X × (X → Y))) (d : Y)
+    (hcl : ∀ r ∈ rs, ∃ C, IsClosed C ∧ r.1 = C ∩ S)
+    (hc : ∀ r ∈ rs, ContinuousOn r.2 r.1)
+    (hag : ∀ r ∈ rs, ∀ r' ∈ rs, ∀ p, p ∈ r.1 → p ∈ r'.1 → r.2 p = r'.2 p) :
+    ContinuousOn (fun p => (firstAccept (candidates rs p)).getD d) (accUnion rs) ∧
+      (∀ r ∈ rs, ∀ p ∈ r.1, firstAccept (candidates rs p) = some (r.2 p)) ∧
+      (∀ p, p ∉ accUnion rs → firstAccept (candidates rs p) = none) :=
+  firstAccept_continuousOn_aux S rs d hcl hc hag
+
+/-- QUANTITATIVE PASTING (headline; proof in Proofs/C12Paste.lean).  As `firstAccept_continuousOn`, but the handlers only
+    agree up to `η` on the overlaps (`dist (g_i p) (g_j p) ≤ η` on `A_i ∩ A_j`) — the situation of the real code, whose
+    acceptance slack −1e-11 makes neighbouring regions overlap in slivers.  Then around every point `x` of the union the
+    first-accept function varies by at most `η + δ`, for every `δ > 0`: its jumps are bounded by `η`. -/
+theorem firstAccept_jump_bound {X Y : Type} [TopologicalSpace X] [PseudoMetricSpace Y] (S : Set X)
+    (rs : List (Set X × (X → Y))) (d : Y) (η : ℝ)
+    (hcl : ∀ r ∈ rs, ∃ C, IsClosed C ∧ r.1 = C ∩ S)
+    (hc : ∀ r ∈ rs, ContinuousOn r.2 r.1)
+    (hη : ∀ r ∈ rs, ∀ r' ∈ rs, ∀ p, p ∈ r.1 → p ∈ r'.1 → dist (r.2 p) (r'.2 p) ≤ η) :
+    ∀ x ∈ accUnion rs, ∀ δ > 0, ∀ᶠ y in nhdsWithin x (accUnion rs),
+      dist ((firstAccept (candidates rs y)).getD d) ((firstAccept (candidates rs x)).getD d) ≤ η + δ :=
+  firstAccept_jump_bound_aux S rs d η hcl hc hη
+
+/-- non-vacuity of the pasting hypotheses: `x ↦ max x 0` pasted from `0` on `(-∞, 0]` and `x` on `[0, ∞)` -/
+example : let rs : List (Set ℝ × (ℝ → ℝ)) := [(Iic 0, fun _ => 0), (Ici 0, fun x => x)]
+    (∀ r ∈ rs, ∃ C, IsClosed C ∧ r.1 = C ∩ univ) ∧ (∀ r ∈ rs, ContinuousOn r.2 r.1) ∧
+      (∀ r ∈ rs, ∀ r' ∈ rs, ∀ p, p ∈ r.1 → p ∈ r'.1 → r.2 p = r'.2 p) ∧
+      firstAccept (candidates rs 2) = some 2 := by
+  intro rs
+  refine ⟨?_, ?_, ?_, ?_⟩
+  · intro r hr
+    simp only [rs, List.mem_cons, List.mem_nil_iff, or_false] at hr
+    rcases hr with rfl | rfl
+    · exact ⟨Iic 0, isClosed_Iic, by simp⟩
+    · exact ⟨Ici 0, isClosed_Ici, by simp⟩
+  · intro r hr
+    simp only [rs, List.mem_cons, List.mem_nil_iff, or_false] at hr
+    rcases hr with rfl | rfl
+    · exact continuousOn_const
+    · exact continuousOn_id
+  · intro r hr r' hr' p hp hp'
+    simp only [rs, List.mem_cons, List.mem_nil_iff, or_false] at hr hr'
+    rcases hr with rfl | rfl <;> rcases hr' with rfl | rfl <;> simp only [mem_Iic, mem_Ici] at hp hp' ⊢ <;> linarith
+  · have h : ¬ ((2 : ℝ) ≤ 0) := by norm_num
+    simp [rs, candidates, firstAccept, h]
+
+/-! ### the quad: what can and what cannot be said about its acceptance set -/
+
+/-- For GIVEN pan values `x`, `y` the only test `QuadRegion.handle` makes on the direction is the strict inequality
+    `pvs·positions·p > 0`: an OPEN half-space.  Whether the quad's true acceptance set (directions for which
+    `pan_axis` finds a root in `[−1e-10, 1+1e-10]` on both axes, with the roots `np.roots` happens to select, and the
+    sign test passes) is closed in the directions ≠ 0 depends on that root selection, which is a parameter of the model:
+    NOT proved (and for non-planar quads the selected root is not even a continuous function of the direction:
+    `quad_two_valued_witness`). -/
+theorem quad_accept_isOpen_of_roots (q : QuadRegion ℝ) (x y : ℝ) :
+    IsOpen {p : Vec3 ℝ | q.handle (some x) (some y) p ≠ none} := by
+  set v := comb (scatter (zeros 4) q.order (QuadRegion.weights x y)) q.positions with hv
+  have : {p : Vec3 ℝ | q.handle (some x) (some y) p ≠ none} = {p | 0 < dot3 v p} := by
+    ext p
+    simp only [mem_ofPred_eq, QuadRegion.handle, ← hv, zero_real]
+    by_cases h : dot3 v p ≤ 0
+    · simp [h, not_lt.mpr h]
+    · simp [h, not_le.mp h]
+  rw [this]
+  obtain ⟨v0, v1, v2⟩ := v
+  simp only [dot3]
+  exact isOpen_lt continuous_const (by fun_prop)
+
+
+/-! ### the pasting theorems on the model's `PointSourcePanner.handle` (any region types, the code's threshold) -/
+
+/-- answer of region number `k` of a panner at `p` (`None` if it rejects); `ρ p` = the quad roots at `p` -/
+noncomputable def regionAnswer (regions : List (Region ℝ)) (n : Nat) (ρ : Vec3 ℝ → Nat → Option ℝ × Option ℝ) (k : Nat)
+    (p : Vec3 ℝ) : Option (List ℝ) :=
+  (PointSourcePanner.results regions n (ρ p) p).getD k none
+
+theorem results_eq_range (regions : List (Region ℝ)) (n : Nat) (ρ : Vec3 ℝ → Nat → Option ℝ × Option ℝ) (p : Vec3 ℝ) :
+    PointSourcePanner.results regions n (ρ p) p = (List.range regions.length).map fun k => regionAnswer regions n ρ k p := by
+  have hlen : (PointSourcePanner.results regions n (ρ p) p).length = regions.length := by
+    simp [PointSourcePanner.results]
+  apply List.ext_getElem (by simp [hlen])
+  intro i h1 h2
+  simp [regionAnswer, List.getD_eq_getElem?_getD, List.getElem?_eq_getElem h1]
+
+/-- the regions of a panner as (acceptance set inside `S`, gain of output channel `c`) -/
+noncomputable def pannerRegions (regions : List (Region ℝ)) (n : Nat) (ρ : Vec3 ℝ → Nat → Option ℝ × Option ℝ)
+    (S : Set (Vec3 ℝ)) (c : Nat) : List (Set (Vec3 ℝ) × (Vec3 ℝ → ℝ)) :=
+  (List.range regions.length).map fun k =>
+    ({p | regionAnswer regions n ρ k p ≠ none} ∩ S, fun p => ((regionAnswer regions n ρ k p).map (·.getD c 0)).getD 0)
+
+theorem pannerRegions_union (regions : List (Region ℝ)) (n : Nat) (ρ : Vec3 ℝ → Nat → Option ℝ × Option ℝ)
+    (S : Set (Vec3 ℝ)) (c : Nat) :
+    accUnion (pannerRegions regions n ρ S c) = {p | p ∈ S ∧ ∃ k < regions.length, regionAnswer regions n ρ k p ≠ none} := by
+  ext p
+  simp only [accUnion, pannerRegions, List.mem_map, List.mem_range, mem_ofPred_eq]
+  constructor
+  · rintro ⟨r, ⟨k, hk, rfl⟩, hp⟩; exact ⟨hp.2, k, hk, hp.1⟩
+  · rintro ⟨hS, k, hk, hp⟩; exact ⟨_, ⟨k, hk, rfl⟩, hp, hS⟩
+
+/-- on `S`, channel `c` of the model's `PointSourcePanner.handle` IS the abstract first-accept loop over `pannerRegions` -/
+theorem panner_eq_candidates (regions : List (Region ℝ)) (n : Nat) (ρ : Vec3 ℝ → Nat → Option ℝ × Option ℝ)
+    (S : Set (Vec3 ℝ)) (c : Nat) (p : Vec3 ℝ) (hS : p ∈ S) :
+    (PointSourcePanner.handle regions n (ρ p) p).map (·.getD c 0) =
+      firstAccept (candidates (pannerRegions regions n ρ S c) p) := by
+  simp only [PointSourcePanner.handle, firstAccept_map, results_eq_range, List.map_map]
+  congr 1
+  simp only [pannerRegions, candidates, List.map_map]
+  apply List.map_congr_left
+  intro k _
+  simp only [Function.comp]
+  by_cases hk : regionAnswer regions n ρ k p = none
+  · have : p ∉ ({p | regionAnswer regions n ρ k p ≠ none} ∩ S) := fun hm => hm.1 hk
+    rw [if_neg this, hk]; rfl
+  · have : p ∈ ({p | regionAnswer regions n ρ k p ≠ none} ∩ S) := ⟨hk, hS⟩
+    rw [if_pos this]
+    obtain ⟨v, hv⟩ := Option.ne_none_iff_exists'.mp hk
+    rw [hv]; rfl
+
+/-- `firstAccept_continuousOn` transported to the model of `PointSourcePanner.handle`, for ANY list of regions
+    (triplets, n-gons, quads with root selection `ρ`) and the code's own thresholds.  Hypotheses, per output channel `c`
+    and on the set `S` of admissible directions: every region's acceptance set is closed in `S`, its answer is
+    continuous on it, and any two regions that both accept give channel `c` the same gain.  Conclusion: the panner's
+    gain for channel `c` is continuous on the union of the acceptance sets.
+    (For triplets the first two hypotheses are `triplet_accept_isClosed` / `triplet_continuousOn`; the third holds
+    exactly only for slack 0 — `shared_face_agreement` — and up to `C·1e-11` for the code — `triplet_sliver_bound`,
+    for which see `panner_jump_bound_of_regions`.) -/
+theorem panner_continuousOn_of_regions (regions : List (Region ℝ)) (n : Nat)
+    (ρ : Vec3 ℝ → Nat → Option ℝ × Option ℝ) (S : Set (Vec3 ℝ)) (c : Nat)
+    (hcl : ∀ k < regions.length, ∃ C, IsClosed C ∧ {p | regionAnswer regions n ρ k p ≠ none} ∩ S = C ∩ S)
+    (hc : ∀ k < regions.length, ContinuousOn (fun p => ((regionAnswer regions n ρ k p).map (·.getD c 0)).getD 0)
+      ({p | regionAnswer regions n ρ k p ≠ none} ∩ S))
+    (hag : ∀ k < regions.length, ∀ j < regions.length, ∀ p ∈ S, regionAnswer regions n ρ k p ≠ none →
+      regionAnswer regions n ρ j p ≠ none →
+      (regionAnswer regions n ρ k p).map (·.getD c 0) = (regionAnswer regions n ρ j p).map (·.getD c 0)) :
+    ContinuousOn (fun p => ((PointSourcePanner.handle regions n (ρ p) p).map (·.getD c 0)).getD 0)
+      {p | p ∈ S ∧ ∃ k < regions.length, regionAnswer regions n ρ k p ≠ none} := by
+  have main := firstAccept_continuousOn_aux S (pannerRegions regions n ρ S c) 0
+    (by
+      intro x hx
+      obtain ⟨k, hk, rfl⟩ := List.mem_map.mp hx
+      exact hcl k (List.mem_range.mp hk))
+    (by
+      intro x hx
+      obtain ⟨k, hk, rfl⟩ := List.mem_map.mp hx
+      exact hc k (List.mem_range.mp hk))
+    (by
+      intro x hx x' hx' p hp hp'
+      obtain ⟨k, hk, rfl⟩ := List.mem_map.mp hx
+      obtain ⟨j, hj, rfl⟩ := List.mem_map.mp hx'
+      have := hag k (List.mem_range.mp hk) j (List.mem_range.mp hj) p hp.2 hp.1 hp'.1
+      simp only [this])
+  rw [pannerRegions_union] at main
+  refine main.1.congr ?_
+  intro p hp
+  simp only [panner_eq_candidates regions n ρ S c p hp.1]
+
+/-- QUANTITATIVE version ("continuous up to jumps of η"): as `panner_continuousOn_of_regions`, but two regions that both
+    accept may differ by up to `η` on channel `c` (for the code's slack: `η = C·1e-11` on the slivers between edge-sharing
+    triplets, `triplet_sliver_bound`).  Then around every direction `x` of the union, channel `c` of the panner's answer
+    varies by at most `η + δ`, for every `δ > 0`: the jumps of the composed panner are bounded by `η`. -/
+theorem panner_jump_bound_of_regions (regions : List (Region ℝ)) (n : Nat)
+    (ρ : Vec3 ℝ → Nat → Option ℝ × Option ℝ) (S : Set (Vec3 ℝ)) (c : Nat) (η : ℝ)
+    (hcl : ∀ k < regions.length, ∃ C, IsClosed C ∧ {p | regionAnswer regions n ρ k p ≠ none} ∩ S = C ∩ S)
+    (hc : ∀ k < regions.length, ContinuousOn (fun p => ((regionAnswer regions n ρ k p).map (·.getD c 0)).getD 0)
+      ({p | regionAnswer regions n ρ k p ≠ none} ∩ S))
+    (hη : ∀ k < regions.length, ∀ j < regions.length, ∀ p ∈ S, regionAnswer regions n ρ k p ≠ none →
+      regionAnswer regions n ρ j p ≠ none →
+      |((regionAnswer regions n ρ k p).map (·.getD c 0)).getD 0 - ((regionAnswer regions n ρ j p).map (·.getD c 0)).getD 0| ≤ η) :
+    let U := {p | p ∈ S ∧ ∃ k < regions.length, regionAnswer regions n ρ k p ≠ none}
+    let G := fun p => ((PointSourcePanner.handle regions n (ρ p) p).map (·.getD c 0)).getD 0
+    ∀ x ∈ U, ∀ δ > 0, ∀ᶠ y in nhdsWithin x U, |G y - G x| ≤ η + δ := by
+  intro U G x hx δ hδ
+  have main := firstAccept_jump_bound_aux S (pannerRegions regions n ρ S c) 0 η
+    (by
+      intro x hx
+      obtain ⟨k, hk, rfl⟩ := List.mem_map.mp hx
+      exact hcl k (List.mem_range.mp hk))
+    (by
+      intro x hx
+      obtain ⟨k, hk, rfl⟩ := List.mem_map.mp hx
+      exact hc k (List.mem_range.mp hk))
+    (by
+      intro r hr r' hr' p hp hp'
+      obtain ⟨k, hk, rfl⟩ := List.mem_map.mp hr
+      obtain ⟨j, hj, rfl⟩ := List.mem_map.mp hr'
+      rw [Real.dist_eq]
+      exact hη k (List.mem_range.mp hk) j (List.mem_range.mp hj) p hp.2 hp.1 hp'.1)
+  rw [pannerRegions_union] at main
+  have hx' := main x hx δ hδ
+  filter_upwards [hx', self_mem_nhdsWithin] with y hy hyU
+  rw [Real.dist_eq] at hy
+  simp only [G, panner_eq_candidates regions n ρ S c y hyU.1, panner_eq_candidates regions n ρ S c x hx.1]
+  exact hy
+
+
+/-! ### non-vacuity of the hypotheses of the all-triplet panner theorem and of the sliver bound -/
+
+/-- the standard basis triplet ... -/
+def exP : Mat3 ℝ := ((1, 0, 0), (0, 1, 0), (0, 0, 1))
+/-- ... and its neighbour across the edge e₁ e₂ (third loudspeaker mirrored: α = β = 0, γ = 1) -/
+def exQ : Mat3 ℝ := ((1, 0, 0), (0, 1, 0), (0, 0, -1))
+
+theorem pv_exP (p : Vec3 ℝ) : Triplet.pv exP p = p := by
+  obtain ⟨x, y, z⟩ := p
+  simp [Triplet.pv, vecMat, inv3, det3, exP]
+
+theorem pv_exQ (p : Vec3 ℝ) : Triplet.pv exQ p = (p.1, p.2.1, -p.2.2) := by
+  obtain ⟨x, y, z⟩ := p
+  simp [Triplet.pv, vecMat, inv3, det3, exQ]
+
+theorem ex_meet : MeetInSharedFace ([0, 1, 2], exP) ([0, 1, 3], exQ) ∧
+    MeetInSharedFace ([0, 1, 3], exQ) ([0, 1, 2], exP) := by
+  constructor
+  · intro p hp ha ha'
+    simp only [Triplet.acceptsE, pv_exP, pv_exQ] at ha ha'
+    obtain ⟨x, y, z⟩ := p
+    simp only at ha ha'
+    have hz : z = 0 := by linarith [ha.2.2, ha'.2.2]
+    subst hz
+    exact ⟨0, 1, 0, 1, x, y, by decide, by decide, ha.1, ha.2.1, by simp [edgePoint, row, exP, add3, smul3],
+      by simp [row, exP, exQ], by simp [chanAt], Or.inr ⟨by simp [row, exP, exQ], by simp [chanAt]⟩⟩
+  · intro p hp ha ha'
+    simp only [Triplet.acceptsE, pv_exP, pv_exQ] at ha ha'
+    obtain ⟨x, y, z⟩ := p
+    simp only at ha ha'
+    have hz : z = 0 := by linarith [ha.2.2, ha'.2.2]
+    subst hz
+    exact ⟨0, 1, 0, 1, x, y, by decide, by decide, ha.1, ha.2.1, by simp [edgePoint, row, exQ, add3, smul3],
+      by simp [row, exP, exQ], by simp [chanAt], Or.inr ⟨by simp [row, exP, exQ], by simp [chanAt]⟩⟩
+
+/-- a two-triplet panner satisfying every hypothesis of `panner_continuousOn_triplets_partial`; the direction
+    `(1, 1, 0)` lies on the shared edge, in both cones -/
+example : let regions : List TRegion := [([0, 1, 2], exP), ([0, 1, 3], exQ)]
+    (∀ r ∈ regions, det3 r.2 ≠ 0) ∧ (∀ r ∈ regions, r.chOk) ∧
+      (∀ r ∈ regions, ∀ r' ∈ regions, r ≠ r' → MeetInSharedFace r r') ∧
+      ((1 : ℝ), (1 : ℝ), (0 : ℝ)) ∈ TRegion.cone ([0, 1, 2], exP) ∧ ((1 : ℝ), (1 : ℝ), (0 : ℝ)) ∈ TRegion.cone ([0, 1, 3], exQ) := by
+  intro regions
+  refine ⟨?_, ?_, ?_, ?_, ?_⟩
+  · intro r hr
+    simp only [regions, List.mem_cons, List.mem_nil_iff, or_false] at hr
+    rcases hr with rfl | rfl <;> norm_num [det3, exP, exQ]
+  · intro r hr
+    simp only [regions, List.mem_cons, List.mem_nil_iff, or_false] at hr
+    rcases hr with rfl | rfl
+    · exact ⟨0, 1, 2, rfl, by decide, by decide, by decide⟩
+    · exact ⟨0, 1, 3, rfl, by decide, by decide, by decide⟩
+  · intro r hr r' hr' hne
+    simp only [regions, List.mem_cons, List.mem_nil_iff, or_false] at hr hr'
+    rcases hr with rfl | rfl <;> rcases hr' with rfl | rfl
+    · exact absurd rfl hne
+    · exact ex_meet.1
+    · exact ex_meet.2
+    · exact absurd rfl hne
+  · refine ⟨?_, by simp⟩
+    simp only [mem_ofPred_eq, Triplet.acceptsE, pv_exP]; norm_num
+  · refine ⟨?_, by simp⟩
+    simp only [mem_ofPred_eq, Triplet.acceptsE, pv_exQ]; norm_num
+
+theorem exQ_opposite : oppositeTriplet exP 0 0 1 = exQ := by
+  simp [oppositeTriplet, exP, exQ, comb3, add3, smul3]
+
+/-- a direction INSIDE the sliver (5e-12 below the shared edge: outside the exact cone of `exP`, inside the slack)
+    satisfies every hypothesis of `triplet_sliver_bound`: both triplets answer -/
+example : let p : Vec3 ℝ := (1, 0, -(5 / 1000000000000))
+    det3 exP ≠ 0 ∧ nsq exP.1 + nsq exP.2.1 + nsq exP.2.2 ≤ 4 ∧
+      nsq exP.1 + nsq exP.2.1 + nsq (comb3 0 0 (-1) exP) ≤ 4 ∧ 3 / 4 ≤ nsq p ∧
+      (∃ g, Triplet.handle exP p = some g) ∧ (∃ g', Triplet.handle (oppositeTriplet exP 0 0 1) p = some g') ∧
+      ¬ Triplet.acceptsE 0 exP p := by
+  intro p
+  have hP : Triplet.accepts exP p := by
+    rw [← acceptsE_eps]; simp only [Triplet.acceptsE, pv_exP, tripletEps_real, p]; norm_num
+  have hQ : Triplet.accepts exQ p := by
+    rw [← acceptsE_eps]; simp only [Triplet.acceptsE, pv_exQ, tripletEps_real, p]; norm_num
+  refine ⟨by norm_num [det3, exP], by norm_num [nsq, exP], by norm_num [nsq, exP, comb3, add3, smul3],
+    by norm_num [nsq, p], ⟨Triplet.gains exP p, by simp [Triplet.handle, hP]⟩,
+    ⟨Triplet.gains exQ p, by rw [exQ_opposite]; simp [Triplet.handle, hQ]⟩, ?_⟩
+  simp only [Triplet.acceptsE, pv_exP, p]; norm_num
+
+
+/-! ### end to end for the code's threshold: the model's panner on two edge-sharing triplets -/
+
+theorem nsq_ne_zero {p : Vec3 ℝ} (h : 3 / 4 ≤ nsq p) : p ≠ (0, 0, 0) := by
+  rintro rfl
+  simp [nsq] at h
+  linarith
+
+theorem isClosed_nsq_ge : IsClosed {p : Vec3 ℝ | 3 / 4 ≤ nsq p} := by
+  simp only [nsq]
+  exact isClosed_le continuous_const (by fun_prop)
+
+theorem regionAnswer_two (r0 r1 : Region ℝ) (n : Nat) (ρ : Vec3 ℝ → Nat → Option ℝ × Option ℝ) (p : Vec3 ℝ) :
+    regionAnswer [r0, r1] n ρ 0 p = remap r0.channels n (r0.handle (ρ p 0) p) ∧
+      regionAnswer [r0, r1] n ρ 1 p = remap r1.channels n (r1.handle (ρ p 1) p) := by
+  simp [regionAnswer, PointSourcePanner.results, List.range_succ]
+
+/-- answer of a triplet region inside a panner: `None` iff `Triplet.handle` is, else the remapped gains -/
+theorem triplet_answer (ch : List Nat) (P : Mat3 ℝ) (n : Nat) (roots : Option ℝ × Option ℝ) (p : Vec3 ℝ) :
+    (remap (Region.triplet ch P).channels n ((Region.triplet ch P).handle roots p) ≠ none ↔ Triplet.handle P p ≠ none) ∧
+      (Triplet.handle P p ≠ none → remap (Region.triplet ch P).channels n ((Region.triplet ch P).handle roots p) =
+        some (tripletOut n (ch, P) p)) := by
+  simp only [Region.channels, Region.handle, remap, tripletOut]
+  cases h : Triplet.handle P p with
+  | none => simp
+  | some g => simp [handle_some_eq_gains h]
+
+/-- END TO END, for the code's own threshold −1e-11, on the model's `PointSourcePanner.handle`: a panner made of two
+    invertible triplets sharing the edge `u v` (`P = (u, v, w)` on channels `cu cv cw`, `Q = (u, v, w')` on `cu cv cw'`,
+    `w' = α·u + β·v − γ·w`, `γ > 0`; four distinct channels; loudspeaker positions of norm about 1).  On directions of
+    norm about 1 (`‖p‖² ≥ 3/4`) every output channel's gain varies, near every direction accepted by one of the
+    triplets, by at most `η + δ` for every `δ > 0`, where `η = 15/2 · max(|α|, |β|, γ+1) · max(1, 1/γ) · 1e-11`:
+    the composed function is continuous up to jumps of `η`. -/
+theorem two_triplet_panner_jump_bound (P : Mat3 ℝ) (hd : det3 P ≠ 0) (α β γ : ℝ) (hγ : 0 < γ)
+    (hrows : nsq P.1 + nsq P.2.1 + nsq P.2.2 ≤ 4)
+    (hrows' : nsq P.1 + nsq P.2.1 + nsq (comb3 α β (-γ) P) ≤ 4)
+    (cu cv cw cw' n c : Nat) (huw : cu ≠ cw) (huw' : cu ≠ cw') (hvw : cv ≠ cw) (hvw' : cv ≠ cw')
+    (hww' : cw ≠ cw') (ρ : Vec3 ℝ → Nat → Option ℝ × Option ℝ) :
+    let regions := [Region.triplet [cu, cv, cw] P, Region.triplet [cu, cv, cw'] (oppositeTriplet P α β γ)]
+    let S := {p : Vec3 ℝ | 3 / 4 ≤ nsq p}
+    let η := 15 / 2 * (max (max |α| |β|) (γ + 1) * max 1 (1 / γ)) * (1 / 100000000000)
+    let U := {p | p ∈ S ∧ ∃ k < regions.length, regionAnswer regions n ρ k p ≠ none}
+    let G := fun p => ((PointSourcePanner.handle regions n (ρ p) p).map (·.getD c 0)).getD 0
+    ∀ x ∈ U, ∀ δ > 0, ∀ᶠ y in nhdsWithin x U, |G y - G x| ≤ η + δ := by
+  intro regions S η
+  set Q := oppositeTriplet P α β γ with hQ
+  have hdQ : det3 Q ≠ 0 := by
+    rw [hQ, det3_opposite]; exact mul_ne_zero (neg_ne_zero.mpr hγ.ne') hd
+  have hη0 : 0 ≤ η := by
+    have h1 : (1 : ℝ) ≤ max (max |α| |β|) (γ + 1) := le_trans (by linarith) (le_max_right _ _)
+    have h2 : (1 : ℝ) ≤ max 1 (1 / γ) := le_max_left _ _
+    have : 0 ≤ max (max |α| |β|) (γ + 1) * max 1 (1 / γ) := mul_nonneg (by linarith) (by linarith)
+    simp only [η]; positivity
+  -- the two answers
+  have hans : ∀ p, regionAnswer regions n ρ 0 p = remap (Region.triplet [cu, cv, cw] P).channels n
+        ((Region.triplet [cu, cv, cw] P).handle (ρ p 0) p) ∧
+      regionAnswer regions n ρ 1 p = remap (Region.triplet [cu, cv, cw'] Q).channels n
+        ((Region.triplet [cu, cv, cw'] Q).handle (ρ p 1) p) := fun p => regionAnswer_two _ _ n ρ p
+  have hlen : regions.length = 2 := rfl
+  -- per region: data (channels, matrix)
+  have key : ∀ k < regions.length, ∃ ch R, det3 R ≠ 0 ∧
+      (∀ p, (regionAnswer regions n ρ k p ≠ none ↔ Triplet.handle R p ≠ none) ∧
+        (Triplet.handle R p ≠ none → regionAnswer regions n ρ k p = some (tripletOut n (ch, R) p))) := by
+    intro k hk
+    rw [hlen] at hk
+    interval_cases k
+    · refine ⟨[cu, cv, cw], P, hd, fun p => ?_⟩
+      rw [(hans p).1]; exact triplet_answer _ _ _ _ _
+    · refine ⟨[cu, cv, cw'], Q, hdQ, fun p => ?_⟩
+      rw [(hans p).2]; exact triplet_answer _ _ _ _ _
+  apply panner_jump_bound_of_regions regions n ρ S c η
+  · intro k hk
+    obtain ⟨ch, R, _, hR⟩ := key k hk
+    refine ⟨{p | Triplet.handle R p ≠ none}, triplet_accept_isClosed_code R, ?_⟩
+    ext p
+    simp only [mem_inter_iff, mem_ofPred_eq, (hR p).1]
+  · intro k hk
+    obtain ⟨ch, R, hdR, hR⟩ := key k hk
+    refine ((tripletOut_continuousOn_ne n c (ch, R) hdR).mono ?_).congr ?_
+    · intro p hp; exact nsq_ne_zero hp.2
+    · intro p hp
+      have := (hR p).2 ((hR p).1.mp hp.1)
+      simp only [this, Option.map_some, Option.getD_some]
+  · intro k hk j hj p hpS hk' hj'
+    rw [hlen] at hk hj
+    -- both triplets accept p
+    have hP : ∀ p, regionAnswer regions n ρ 0 p ≠ none → Triplet.handle P p ≠ none := fun p h => by
+      rw [(hans p).1] at h; exact (triplet_answer _ _ _ _ _).1.mp h
+    have hQ' : ∀ p, regionAnswer regions n ρ 1 p ≠ none → Triplet.handle Q p ≠ none := fun p h => by
+      rw [(hans p).2] at h; exact (triplet_answer _ _ _ _ _).1.mp h
+    have cross : ∀ p ∈ S, regionAnswer regions n ρ 0 p ≠ none → regionAnswer regions n ρ 1 p ≠ none →
+        |((regionAnswer regions n ρ 0 p).map (·.getD c 0)).getD 0 - ((regionAnswer regions n ρ 1 p).map (·.getD c 0)).getD 0| ≤ η := by
+      intro p hpS h0 h1
+      have a0 := hP p h0
+      have a1 := hQ' p h1
+      obtain ⟨g, hg⟩ := Option.ne_none_iff_exists'.mp a0
+      obtain ⟨g', hg'⟩ := Option.ne_none_iff_exists'.mp a1
+      obtain ⟨m0, m1, m2, m3⟩ := triplet_sliver_bound P hd α β γ hγ p g g' hrows hrows' hpS hg hg'
+      rw [(hans p).1, (hans p).2, (triplet_answer _ _ n (ρ p 0) p).2 a0, (triplet_answer _ _ n (ρ p 1) p).2 a1]
+      simp only [Option.map_some, Option.getD_some, tripletOut, ← handle_some_eq_gains hg, ← handle_some_eq_gains hg',
+        vecList, scatter3_getD]
+      have z : |(0 : ℝ) - 0| ≤ η := by simpa using hη0
+      split_ifs <;> first | exact m0 | exact m1 | exact m2 | exact m3 | exact z | (exfalso; omega)
+    interval_cases k <;> interval_cases j
+    · simpa using hη0
+    · exact cross p hpS hk' hj'
+    · rw [abs_sub_comm]; exact cross p hpS hj' hk'
+    · simpa using hη0
+
+/-- the hypotheses of `two_triplet_panner_jump_bound` are satisfiable: the standard basis triplet and its mirror image
+    across the edge e₁ e₂, on channels 0 1 2 / 0 1 3 (a direction inside the sliver, accepted by both, is exhibited in
+    the example above) -/
+example (ρ : Vec3 ℝ → Nat → Option ℝ × Option ℝ) (c : Nat) :=
+  two_triplet_panner_jump_bound exP (by norm_num [det3, exP]) 0 0 1 (by norm_num) (by norm_num [nsq, exP])
+    (by norm_num [nsq, exP, comb3, add3, smul3]) 0 1 2 3 4 c (by decide) (by decide) (by decide) (by decide) (by decide) ρ
+
 /-! ### non-vacuity -/
 
 example : cross3 ((1 : ℝ), 0, 0) (0, 1, 0) ≠ (0, 0, 0) := by norm_num [cross3]
@@ -661,14 +1344,26 @@ example : ((1 : ℝ), 1, 0) ∈ {p | Triplet.pv (((1 : ℝ), 0, 0), (0, 1, 0), (
   simp [Triplet.pv, vecMat, inv3, det3]
 example : ((1 : ℝ), 0, 0, 0, 0) ∈ stereoDomain := by simp [stereoDomain]
 
-/-- PARTIAL (see the header): piecewise continuity + agreement on shared edges. -/
+/-- PARTIAL (see the header): piecewise continuity + agreement on shared edges + pasting along the first-accept loop
+    (all-triplet panner at slack 0) + the sliver bound for the code's slack. -/
 theorem C12_partial :
     (type_of% @edge_unique) ∧ (type_of% @edge_exists) ∧ (type_of% @triplet_on_edge) ∧ (type_of% @edge_agreement) ∧
     (type_of% @triplet_continuousOn) ∧ (type_of% @triplet_handle_continuousOn) ∧ (type_of% @stereo_continuousOn) ∧
     (type_of% @downmix_continuousOn) ∧ (type_of% @quad_on_edge) ∧ (type_of% @quad_edge_agreement) ∧
-    (type_of% @quad_edge_agreement') ∧ (type_of% @ngon_candidate_on_edge) ∧ (type_of% @ngon_on_edge) :=
+    (type_of% @quad_edge_agreement') ∧ (type_of% @ngon_candidate_on_edge) ∧ (type_of% @ngon_on_edge) ∧
+    (type_of% @firstAccept_eq_of_agree) ∧ (type_of% @firstAccept_continuousOn) ∧ (type_of% @firstAccept_jump_bound) ∧
+    (type_of% @panner_continuousOn_of_regions) ∧ (type_of% @triplet_accept_isClosed) ∧
+    (type_of% @triplet_accept_isClosed_code) ∧ (type_of% @ngon_accept_isClosed) ∧
+    (type_of% @quad_accept_isOpen_of_roots) ∧ (type_of% @tripletPannerE_eps) ∧ (type_of% @shared_face_agreement) ∧
+    (type_of% @panner_continuousOn_triplets_partial) ∧ (type_of% @triplet_sliver_bound_general) ∧
+    (type_of% @triplet_sliver_bound) ∧ (type_of% @panner_jump_bound_of_regions) ∧
+    (type_of% @two_triplet_panner_jump_bound) :=
   ⟨@edge_unique, @edge_exists, @triplet_on_edge, @edge_agreement, @triplet_continuousOn,
     @triplet_handle_continuousOn, @stereo_continuousOn, @downmix_continuousOn, @quad_on_edge, @quad_edge_agreement,
-    @quad_edge_agreement', @ngon_candidate_on_edge, @ngon_on_edge⟩
+    @quad_edge_agreement', @ngon_candidate_on_edge, @ngon_on_edge, @firstAccept_eq_of_agree,
+    @firstAccept_continuousOn, @firstAccept_jump_bound, @panner_continuousOn_of_regions, @triplet_accept_isClosed,
+    @triplet_accept_isClosed_code, @ngon_accept_isClosed, @quad_accept_isOpen_of_roots, @tripletPannerE_eps,
+    @shared_face_agreement, @panner_continuousOn_triplets_partial, @triplet_sliver_bound_general,
+    @triplet_sliver_bound, @panner_jump_bound_of_regions, @two_triplet_panner_jump_bound⟩
 
 end Earverif.PointSource
